@@ -1,0 +1,17 @@
+//go:build !verif
+// +build !verif
+
+package vm
+
+import "github.com/mattn/anko/ast"
+
+// Verification hooks are compiled out: every call site is guarded by this constant.
+
+const verifOn = false
+
+func verifStmt(*runInfoStruct) func()                { return nil }
+func verifPoll(*runInfoStruct, string)               {}
+func verifFunc(*runInfoStruct, *ast.FuncExpr) func() { return nil }
+func verifDefer(*runInfoStruct, int)                 {}
+func verifSpawn(*runInfoStruct)                      {}
+func verifRun(*runInfoStruct) func()                 { return nil }
